@@ -272,6 +272,163 @@ Definition check_case (nkeys : nat) (segs : list (list op)) (vs : list nat) (ats
   let m := observations (init nkeys) segs vs ats ks in
   list_eqb obs_eqb m impl1 && list_eqb obs_eqb m impl2.
 
+(* ---------- compact transport encoding for the correspondence (Coq elaborates every list element / numeral of a
+   literal slowly, so a case is shipped as a short list of primitive 63-bit integers, each packing up to nine numbers
+   (7 bits each, stored +1, 0 = no more)); decoding failures make the check false *)
+From Coq Require Import ZArith Uint63.
+Fixpoint unpack1 (fuel : nat) (x : int) : list nat :=
+  match fuel with
+  | O => []
+  | S f => let v := Uint63.land x 127%uint63 in
+           if Uint63.eqb v 0%uint63 then []
+           else Nat.pred (Z.to_nat (Uint63.to_Z v)) :: unpack1 f (Uint63.lsr x 7%uint63)
+  end.
+Definition unpack (l : list int) : list nat := flat_map (unpack1 9) l.
+
+(* cell: 0 n = Some (VInt n) | 1 a = Some (VRef a) | 2 f a = Some (VStr f a) | 3 = None *)
+Definition dec_cell (l : list nat) : option (cell * list nat) :=
+  match l with
+  | 0 :: n :: r => Some (Some (VInt n), r)
+  | 1 :: a :: r => Some (Some (VRef a), r)
+  | 2 :: f :: a :: r => Some (Some (VStr f a), r)
+  | 3 :: r => Some (None, r)
+  | _ => None
+  end.
+
+(* ops: 0 NewVar | 1 a cell Bind | 2 a b Unify | 3 a cell SetVal | 4 k cell BbPut | 5 k cell BbBPut | 6 k BbGet |
+        7 Try | 8 Retry | 9 Trust | 10 Cut | 11 end of segment | 12 end of the operations; None on a malformed list *)
+Fixpoint dec_ops (l : list nat) (cur : list op) (segs : list (list op)) : option (list (list op) * list nat) :=
+  match l with
+  | 0 :: r => dec_ops r (NewVar :: cur) segs
+  | 1 :: a :: 0 :: n :: r => dec_ops r (Bind a (VInt n) :: cur) segs
+  | 1 :: a :: 1 :: b :: r => dec_ops r (Bind a (VRef b) :: cur) segs
+  | 1 :: a :: 2 :: f :: b :: r => dec_ops r (Bind a (VStr f b) :: cur) segs
+  | 2 :: a :: b :: r => dec_ops r (Unify a b :: cur) segs
+  | 3 :: a :: 0 :: n :: r => dec_ops r (SetVal a (Some (VInt n)) :: cur) segs
+  | 3 :: a :: 3 :: r => dec_ops r (SetVal a None :: cur) segs
+  | 4 :: k :: 0 :: n :: r => dec_ops r (BbPut k (VInt n) :: cur) segs
+  | 5 :: k :: 0 :: n :: r => dec_ops r (BbBPut k (VInt n) :: cur) segs
+  | 6 :: k :: r => dec_ops r (BbGet k :: cur) segs
+  | 7 :: r => dec_ops r (Try :: cur) segs
+  | 8 :: r => dec_ops r (Retry :: cur) segs
+  | 9 :: r => dec_ops r (Trust :: cur) segs
+  | 10 :: r => dec_ops r (Cut :: cur) segs
+  | 11 :: r => dec_ops r [] (rev cur :: segs)
+  | 12 :: r => match cur with [] => Some (rev segs, r) | _ => None end
+  | _ => None
+  end.
+
+Fixpoint dec_oterm (l : list nat) : option (oterm * list nat) :=
+  match l with
+  | 0 :: v :: r => Some (OVar v, r)
+  | 1 :: n :: r => Some (OInt n, r)
+  | 2 :: f :: r => match dec_oterm r with Some (t, r') => Some (OStr f t, r') | None => None end
+  | _ => None
+  end.
+Definition dec_att (l : list nat) : option (oatt * list nat) :=
+  match l with
+  | 0 :: r => Some (ABound, r)
+  | 1 :: r => Some (ANone, r)
+  | 2 :: n :: r => Some (AVal n, r)
+  | _ => None
+  end.
+Definition dec_nat (l : list nat) : option (nat * list nat) :=
+  match l with n :: r => Some (n, r) | [] => None end.
+Fixpoint dec_n {A} (dec : list nat -> option (A * list nat)) (n : nat) (l : list nat) : option (list A * list nat) :=
+  match n with
+  | O => Some ([], l)
+  | S n' => match dec l with
+            | Some (x, r) => match dec_n dec n' r with Some (xs, r') => Some (x :: xs, r') | None => None end
+            | None => None
+            end
+  end.
+(* obs: nvars oterm* natts att* nbb cell* *)
+Definition dec_obs (l : list nat) : option (obs * list nat) :=
+  match l with
+  | nv :: r =>
+    match dec_n dec_oterm nv r with
+    | Some (vs, na :: r1) =>
+      match dec_n dec_att na r1 with
+      | Some (ats, nb :: r2) =>
+        match dec_n dec_cell nb r2 with
+        | Some (bs, r3) => Some ({| o_vars := vs; o_atts := ats; o_bb := bs |}, r3)
+        | None => None
+        end
+      | _ => None
+      end
+    | _ => None
+    end
+  | [] => None
+  end.
+Definition dec_obs_list (l : list nat) : option (list obs * list nat) :=
+  match l with
+  | n :: r => dec_n dec_obs n r
+  | [] => None
+  end.
+Fixpoint pairs (l : list nat) : list (nat * nat) :=
+  match l with a :: b :: r => (a, b) :: pairs r | _ => [] end.
+
+(* header: nkeys, nv, vs.., na, (var slot)*na ; then the operations ; then one or two observation lists
+   (one = both paths observed the same) *)
+Record tcase := { t_nkeys : nat; t_vs : list nat; t_ats : list (nat * nat); t_segs : list (list op); t_rest : list nat }.
+Definition dec_case (l : list nat) : option tcase :=
+  match l with
+  | nk :: nv :: r =>
+    match dec_n dec_nat nv r with
+    | Some (vs, na :: r1) =>
+      match dec_n dec_nat (2 * na) r1 with
+      | Some (ps, r2) =>
+        match dec_ops r2 [] [] with
+        | Some (segs, r3) => Some {| t_nkeys := nk; t_vs := vs; t_ats := pairs ps; t_segs := segs; t_rest := r3 |}
+        | None => None
+        end
+      | None => None
+      end
+    | _ => None
+    end
+  | _ => None
+  end.
+Definition check_case_p (l : list int) : bool :=
+  match dec_case (unpack l) with
+  | Some c =>
+    match dec_obs_list (t_rest c) with
+    | Some (o1, []) => check_case (t_nkeys c) (t_segs c) (t_vs c) (t_ats c) (seq 0 (t_nkeys c)) o1 o1
+    | Some (o1, r) =>
+      match dec_obs_list r with
+      | Some (o2, []) => check_case (t_nkeys c) (t_segs c) (t_vs c) (t_ats c) (seq 0 (t_nkeys c)) o1 o2
+      | _ => false
+      end
+    | None => false
+    end
+  | None => false
+  end.
+(* for failure reports *)
+Definition observations_p (l : list int) : option (list obs) :=
+  match dec_case (unpack l) with
+  | Some c => Some (observations (init (t_nkeys c)) (t_segs c) (t_vs c) (t_ats c) (seq 0 (t_nkeys c)))
+  | None => None
+  end.
+
+(* sensitivity of the generated cases: would the observations expose a different trailing condition?
+   (true = the mutant model is indistinguishable from the real one on this case) *)
+Fixpoint observations_gen (tc : nat -> nat -> bool) (s : state) (segs : list (list op)) (vs : list nat)
+                          (ats : list (nat * nat)) (ks : list nat) : list obs :=
+  match segs with
+  | [] => []
+  | ops :: r => let s' := run_gen tc ops s in
+                observe s' vs ats ks :: observations_gen tc (run_gen tc (map BbGet ks) s') r vs ats ks
+  end.
+Definition mutant_same_p (tc : nat -> nat -> bool) (l : list int) : bool :=
+  match dec_case (unpack l) with
+  | Some c => let ks := seq 0 (t_nkeys c) in
+              list_eqb obs_eqb (observations_gen tc (init (t_nkeys c)) (t_segs c) (t_vs c) (t_ats c) ks)
+                               (observations (init (t_nkeys c)) (t_segs c) (t_vs c) (t_ats c) ks)
+  | None => true
+  end.
+Definition cond_never (a h : nat) : bool := false.
+Definition cond_always (a h : nat) : bool := true.
+Definition cond_le (a h : nat) : bool := a <=? h.
+
 (* ---------- data of the non-vacuity examples in Props.v *)
 Definition ex_pre : list op := [NewVar; NewVar; NewVar; Bind 2 (VInt 7); BbBPut 0 (VInt 1)].
 Definition ex_ops : list op :=
